@@ -58,6 +58,14 @@ func classify(prop string, h *History, calls []*CallObs, res *hx.Result) bool {
 			if txt, ok := failureText(ev); ok {
 				special = true
 				res.Dist(fmt.Sprintf("failure:%d", failCode(txt)))
+				if failCode(txt) < 0 {
+					// projected as the wildcard: say which texts (first words) so that the evidence shows what the tie did not compare
+					w := strings.Fields(txt)
+					if len(w) > 6 {
+						w = w[:6]
+					}
+					res.Dist("failure-text-not-recognised:" + strings.Join(w, " "))
+				}
 				if failCode(txt) == 0 || failCode(txt) == 4 {
 					nearLimit = true
 				}
